@@ -328,7 +328,7 @@ func ruleSpanSiblings(c *Ctx) {
 	c.rule("R-SPAN-SIBLING", 0, "the span formatters of mdiff choose the short form on the same linear test of (start, end)")
 	type form struct {
 		a, b, k int64
-		op     token.Token
+		op      token.Token
 	}
 	isInt := func(t types.Type) bool {
 		bt, ok := t.Underlying().(*types.Basic)
@@ -447,25 +447,39 @@ func ruleFractionRange(c *Ctx) {
 		return
 	}
 	beta := nw.Params[0]
-	var ks []float64
+	// the admitted range: the guard's comparisons of β with constants, read as "rejected when β op k"
+	haveLo, haveHi := false, false
+	var lo, hi float64
 	allInstrs(nw, func(in ssa.Instruction) {
-		if bo, ok := in.(*ssa.BinOp); ok {
-			if bo.X == ssa.Value(beta) {
-				if k, ok := constInt(bo.Y); ok {
-					ks = append(ks, float64(k))
-				}
-			} else if bo.Y == ssa.Value(beta) {
-				if k, ok := constInt(bo.X); ok {
-					ks = append(ks, float64(k))
-				}
-			}
+		bo, ok := in.(*ssa.BinOp)
+		if !ok {
+			return
+		}
+		x, y, op := bo.X, bo.Y, bo.Op
+		if y == ssa.Value(beta) {
+			x, y, op = y, x, flipOp(op)
+		}
+		if x != ssa.Value(beta) {
+			return
+		}
+		k, ok := constInt(y)
+		if !ok {
+			return
+		}
+		switch op {
+		case token.LSS: // rejected below k
+			lo, haveLo = float64(k), true
+		case token.LEQ:
+			lo, haveLo = float64(k+1), true
+		case token.GTR: // rejected above k
+			hi, haveHi = float64(k), true
+		case token.GEQ:
+			hi, haveHi = float64(k-1), true
 		}
 	})
-	if len(ks) < 2 {
+	if !haveLo || !haveHi {
 		return
 	}
-	sort.Float64s(ks)
-	lo, hi := ks[0], ks[len(ks)-1]
 	var conv *ssa.Function
 	allInstrs(lf, func(in ssa.Instruction) {
 		if call, ok := in.(*ssa.Call); ok {
@@ -536,6 +550,9 @@ func ruleFractionRange(c *Ctx) {
 	c.sawFn(fnName(conv))
 	const eps = 1e-9
 	c.judge(r.lo >= 0.5-eps && r.hi <= 1+eps, "R-FRACTION-RANGE", fnName(conv)+":range", conv.Pos(), fmt.Sprintf("β ∈ [%g, %g] ↦ [%g, %g] ⊆ [0.5, 1]", lo, hi, r.lo, r.hi), fmt.Sprintf("for β ∈ [%g, %g] the weight fraction ranges over [%g, %g], outside [0.5, 1]: the depth limit log_{1/fraction}(n) is then negative, infinite or below the height of a perfectly balanced tree, so the bound the tree promises is not the one enforced", lo, hi, r.lo, r.hi))
+	// … and onto it: the strictest admitted balance is perfect weight balance (1/2), the loosest is "no
+	// rebalancing" (1) — a guard that stops short of either end rejects balance factors the type documents
+	c.judge(r.lo <= 0.5+eps && r.hi >= 1-eps, "R-FRACTION-RANGE", fnName(nw)+":admitted balance factors", nw.Pos(), fmt.Sprintf("β ∈ [%g, %g] covers the fractions from 1/2 to 1", lo, hi), fmt.Sprintf("New admits β ∈ [%g, %g], which reaches the weight fractions [%g, %g] only: the end of the scale (fraction %g) is rejected with a panic although it is a documented balance factor", lo, hi, r.lo, r.hi, map[bool]float64{true: 1, false: 0.5}[r.hi < 1-eps]))
 }
 
 // ruleDigitBase (R-DIGIT-BASE): the numeric parser of CompareNatural accumulates v = v·B + (c − z) over the bytes its
@@ -707,7 +724,12 @@ func ruleUTF8Class(c *Ctx) {
 	for _, b := range fn.Blocks {
 		for _, in := range b.Instrs {
 			eq, ok := in.(*ssa.BinOp)
-			if !ok || (eq.Op != token.EQL && eq.Op != token.NEQ) {
+			if !ok {
+				continue
+			}
+			switch eq.Op {
+			case token.EQL, token.NEQ, token.LSS, token.LEQ, token.GTR, token.GEQ:
+			default:
 				continue
 			}
 			and, ok := eq.X.(*ssa.BinOp)
@@ -725,7 +747,21 @@ func ruleUTF8Class(c *Ctx) {
 			}
 			var set [256]bool
 			for x := 0; x < 256; x++ {
-				set[x] = (int64(x)&m == v) == (eq.Op == token.EQL)
+				w := int64(x) & m
+				switch eq.Op {
+				case token.EQL:
+					set[x] = w == v
+				case token.NEQ:
+					set[x] = w != v
+				case token.LSS:
+					set[x] = w < v
+				case token.LEQ:
+					set[x] = w <= v
+				case token.GTR:
+					set[x] = w > v
+				case token.GEQ:
+					set[x] = w >= v
+				}
 			}
 			n++
 			loop := inLoop(b)
